@@ -194,6 +194,28 @@ H("k10_vertical_u16_x4_w5_chunk_and_tail",
   "vertical u16 kernel == fx over the source column for every component, in the chunked loop and in the tail; result independent of the stale destination; spare pixel and source untouched; reads in bounds",
   P_INT)
 
+
+MODS.append(dict(file=VU16, name="fv_k10_vu16_x2w2", code=VHEAD + vert_run("U16x2", "u16", 2, 2, "Normalizer32", ORC32) + """
+    #[kani::proof]
+    #[kani::unwind(6)]
+    fn k10_vertical_u16_x2_w2_tail_only() {
+        let n = fv_norm32(30, &[(0, &[268435456, 805306368]), (1, &[-107374182, 1288490188])]);
+        let offset: u32 = kani::any();
+        kani::assume(offset <= 1);
+        run(any_rows(), &n, offset);
+    }
+"""))
+H("k10_vertical_u16_x2_w2_tail_only", "U16x2 3x3 -> 2x2", "tail only", P_INT)
+MODS[-2]["code"] += """
+    #[kani::proof]
+    #[kani::unwind(18)]
+    fn k10_vertical_u16_x4_w5_o0() {
+        let n = %s;
+        run(any_rows(), &n, 0);
+    }
+""" % VT32
+H("k10_vertical_u16_x4_w5_o0", "exp", "exp", P_INT)
+
 # ---- experiments (temporary)
 MODS[2]["code"] += """
     fn orc(n: &Normalizer32, chunk: usize, px: &[u16]) -> u16 {
